@@ -72,9 +72,8 @@ def run(ctx: core.Ctx):
     for f in (sc.get_readout_circuit, sc._get_preparation_circuit_modulo_phase):
         ctx.under_contract(f)
     ctx.selfcheck["oracle_gate_rules_checked_densely"] = P.selftest()
-    from ..contracts import pipeline
-    from .. import symrun
-    symrun.run(ctx, pipeline.glue_tasks(), label="glue")       # glue code verified modularly against the callees' contracts (all n)
+    from .. import prereq, symrun
+    prereq.pipeline_contracts(ctx)       # glue code (all n), layer-search segment contracts (all inputs), purity of the pipeline functions
     jobs, desc = e2e.build_jobs(ctx, parts=("readout",))
     t = time.time()
     results = core.pmap(e2e.eval_state, jobs)
